@@ -94,6 +94,7 @@ def stress_tensor(frame: object, grid: int = 5, radius: float = 1) -> Tuple:
 
     min_distance = radius * np.sqrt(cells["area"].mean() / np.pi)
 
+    key_width = len(str(grid - 1))
     for row in range(grid):
         for column in range(grid):
             center = ((x_bins[row + 1] + x_bins[row]) / 2, (y_bins[column + 1] + y_bins[column]) / 2) 
@@ -101,7 +102,7 @@ def stress_tensor(frame: object, grid: int = 5, radius: float = 1) -> Tuple:
             total_area = current_cell_mesh["area"].sum()
 
             if total_area == 0:
-                sigmas[f"{row}{column}"] = np.array([[0, 0], [0, 0]], dtype=float)
+                sigmas[f"{row:0{key_width}d}{column:0{key_width}d}"] = np.array([[0, 0], [0, 0]], dtype=float)
                 continue
 
             pressure_area_term = - np.sum([cell["pressure"] * cell["area"] for _, cell in current_cell_mesh.iterrows()])
@@ -122,6 +123,6 @@ def stress_tensor(frame: object, grid: int = 5, radius: float = 1) -> Tuple:
             sigma_yy = (pressure_area_term + tension_yy) / total_area
             sigma_xy = tension_xy / total_area
 
-            sigmas[f"{row}{column}"] = np.array([[sigma_xx, sigma_xy], [sigma_xy, sigma_yy]], dtype=float)
+            sigmas[f"{row:0{key_width}d}{column:0{key_width}d}"] = np.array([[sigma_xx, sigma_xy], [sigma_xy, sigma_yy]], dtype=float)
 
     return sigmas, bins_centers, (x_bins, y_bins)
